@@ -3,8 +3,8 @@
 usage: tools/mut.py PROP FILE OLD NEW [-- extra check args]
 The worktree /tmp/wt-main and its build dir are created on demand and kept until `tools/mut.py --clean`."""
 import os, subprocess, sys
-WT = "/tmp/wt-main"
-BD = "/verif/build/alt-main"
+WT = os.environ.get("MUT_WT", "/tmp/wt-main")
+BD = "/verif/build/alt-" + os.path.basename(WT)
 if sys.argv[1] == "--clean":
     subprocess.call(["git", "-C", "/repo", "worktree", "remove", "--force", WT])
     subprocess.call(["rm", "-rf", BD])
